@@ -479,11 +479,11 @@ structure Context where
   deriving Repr, DecidableEq
 
 /-- `Context::new::<B>`: the pieces are values of their types, trace length and LDE domain fit u32; the
-    modulus bytes come from the field (8 or 16 of them) -/
+    modulus bytes come from the field (8 or 16 of them; the length byte allows up to 255) -/
 def Context.wf (c : Context) : Bool :=
   c.traceInfo.wf && c.options.wf &&
   c.traceInfo.length ≤ 4294967295 && c.traceInfo.length * c.options.blowup ≤ 4294967295 &&
-  c.modulus.length > 0 && c.modulus.length < 255
+  c.modulus.length > 0 && c.modulus.length < 256
 
 def context : Codec Context where
   enc c := traceInfo.enc c.traceInfo ++ [c.modulus.length % 256] ++ c.modulus ++ proofOptions.enc c.options
@@ -498,7 +498,7 @@ def context : Codec Context where
     if ti.length * o.blowup > 4294967295 then Dec.fail else do
     pure ⟨ti, m, o⟩
   wf := Context.wf
-  wpanic c := traceInfo.wpanic c.traceInfo || c.modulus.length ≥ 255
+  wpanic c := traceInfo.wpanic c.traceInfo || c.modulus.length ≥ 256
 
 -- ------------------------------------------------------------------------------------------------
 -- byte blocks with a fixed-width length prefix
@@ -511,12 +511,12 @@ def block (n : Nat) : Codec Bytes where
     readSlice k
   wf bs := bs.length < 256 ^ n
 
-/-- `Commitments`: the concatenated digests; the writer asserts `len < u16::MAX` -/
+/-- `Commitments`: the concatenated digests; the writer asserts `len <= u16::MAX` -/
 def commitments : Codec Bytes where
   enc := (block 2).enc
   dec := (block 2).dec
-  wf bs := bs.length < 65535
-  wpanic bs := bs.length ≥ 65535
+  wf bs := bs.length < 65536
+  wpanic bs := bs.length ≥ 65536
 
 /-- `Commitments::new`: trace roots, constraint root, FRI roots, each digest serialized -/
 def commitmentsNew (d : Codec δ) (trace : List δ) (constraint : δ) (fri : List δ) : Bytes :=
